@@ -411,6 +411,7 @@ func (s *Schema) UnmarshalJSON(data []byte) error {
 		Dependencies  map[string]json.RawMessage `json:"dependencies,omitempty"`
 		Items         json.RawMessage            `json:"items,omitempty"`
 		Const         json.RawMessage            `json:"const,omitempty"`
+		Examples      []json.RawMessage          `json:"examples,omitempty"`
 		MinLength     *integer                   `json:"minLength,omitempty"`
 		MaxLength     *integer                   `json:"maxLength,omitempty"`
 		MinItems      *integer                   `json:"minItems,omitempty"`
@@ -501,6 +502,17 @@ func (s *Schema) UnmarshalJSON(data []byte) error {
 	// unmarshal: the *any is set to nil, not a pointer to nil.
 	if err := unmarshalAnyPtr(&s.Const, ms.Const); err != nil {
 		return err
+	}
+
+	// An example can be any JSON value, including one with numbers that a
+	// float64 cannot hold.
+	if ms.Examples != nil {
+		s.Examples = make([]any, len(ms.Examples))
+		for i, raw := range ms.Examples {
+			if s.Examples[i], err = unmarshalAny(raw); err != nil {
+				return err
+			}
+		}
 	}
 
 	set := func(dst **int, src *integer) {
